@@ -7,15 +7,22 @@
   parse, threshold ≥ 1), `RefreshEventHandler.HandleEvents` (listener error, no event, LAST event's hash, empty hash refused,
   provider, store, `SetTopology`, `LoadPeers`), sequences of such calls.
   WHAT IS PROVED, for ALL hash functions, decrypters and parsers (`Env` is universally quantified), all states, all events:
-    * `gate_membership`, `conn_only_members`   a connection in either direction passes the gater iff the peer is in the topology;
-    * `attribution`, `stream_attribution`, `stream_no_invention`   every delivered message carries the authenticated remote peer
+    * `gate_membership` (DEFINITIONAL), `conn_only_members`   a connection in either direction passes the gater iff the peer is in the topology;
+    * `attribution` (DEFINITIONAL), `stream_attribution`, `stream_no_invention`   every delivered message carries the authenticated remote peer
                                   as sender, whatever the payload; delivered contents are decodings of received lines;
-    * `refresh_eq`, `refresh_ok`, `refresh_adopts_only_announced`, `refresh_panic_unchanged`   the state changes only by adopting
+    * `refresh_eq` (relates two hand-written definitions by case analysis), `refresh_ok`, `refresh_adopts_only_announced`, `refresh_panic_unchanged`   the state changes only by adopting
                                   the topology whose ciphertext hashes to the (non-empty) hash of the last announced event and
                                   which decrypts/parses with threshold ≥ 1 and could be stored; otherwise nothing changes;
     * `run_last_accepted`, `run_in_announced`, `consistent_run`, `admission_after_run`, `admission_is_gate`   over any sequence of refresh calls the state is that of the
                                   last accepted one, the admission list and the dial targets are exactly the stored topology's peers.
-  ASSUMED / NOT PROVED: libp2p consults `InterceptSecured` for every connection and `Conn().RemotePeer()` is the
+    * `interleaved_components_announced`, `admission_interleaved`, `run_is_sequential_writes`, `refresh_is_writes`   one handler exists per
+                                  EVM chain, sharing store, gate and host: for EVERY interleaving of the three writes of any number of
+                                  calls each component is initial or announced, admitted peers belong to the initial or an announced
+                                  topology; agreement of the three components (`Consistent`) is a SEQUENTIAL-history theorem only — an
+                                  `example` (replayed on two real handlers, op `refresh2`) shows an interleaving that loses it;
+    * `bootstrap_consistent`      the start-up hypothesis `Consistent` of the sequential theorems holds for the modelled start-up.
+  ASSUMED / NOT PROVED: the Go memory model (the gate's topology pointer is written and read without a lock; each write is
+  treated as atomic); libp2p consults `InterceptSecured` for every connection and `Conn().RemotePeer()` is the
   noise-authenticated peer (exercised with two real hosts in the thorough tier); `json:"-"` keeps `encoding/json` from
   populating `From` (exercised with smuggling payloads on the real code); the Lean SHA-256 equals Go's (validated on every run);
   AES-CTR and the JSON/multiaddr/ParseInt parser are parameters (their results are fed to the model by the harness from the real
@@ -87,6 +94,57 @@ theorem refresh_panic (e : Env) (st : St) (ev : Ev) (h : (refresh e st ev).2 = .
   unfold refresh at *
   repeat' split at h
   all_goals first | rfl | simp_all
+
+theorem interleaving_mem {ls : List (List Write)} {ws : List Write} (h : Interleaving ls ws) :
+    ∀ w ∈ ws, ∃ l ∈ ls, w ∈ l := by
+  induction h with
+  | done ls _ => intro w hw; cases hw
+  | step pre w l post ws _ ih =>
+    intro x hx
+    rcases List.mem_cons.1 hx with rfl | hx
+    · exact ⟨x :: l, by simp, by simp⟩
+    · obtain ⟨l', hl', hx'⟩ := ih x hx
+      rcases List.mem_append.1 hl' with h1 | h1
+      · exact ⟨l', by simp [h1], hx'⟩
+      · rcases List.mem_cons.1 h1 with rfl | h1
+        · exact ⟨w :: l', by simp, by simp [hx']⟩
+        · exact ⟨l', by simp [h1], hx'⟩
+
+/-- each component of a state reached by writes drawn from a set of topologies is the initial one or comes from the set -/
+theorem applyWrites_components (A : Topo → Prop) (st : St) (ws : List Write) (h : ∀ w ∈ ws, A w.topo) :
+    let st' := applyWrites st ws
+    (st'.stored = st.stored ∨ ∃ t, A t ∧ st'.stored = some t) ∧
+    (st'.gate = st.gate ∨ ∃ t, A t ∧ st'.gate = canon t.peers) ∧
+    (st'.pstore = st.pstore ∨ ∃ t, A t ∧ st'.pstore = canon t.peers) := by
+  induction ws generalizing st with
+  | nil => simp [applyWrites]
+  | cons w ws ih =>
+    have hw := h w (by simp)
+    have ih' := ih (applyWrite st w) (fun x hx => h x (by simp [hx]))
+    simp only [applyWrites, List.foldl_cons] at ih' ⊢
+    obtain ⟨i1, i2, i3⟩ := ih'
+    cases w with
+    | store t =>
+      refine ⟨?_, i2, i3⟩
+      rcases i1 with e | e
+      · exact Or.inr ⟨t, hw, by rw [e]; rfl⟩
+      · exact Or.inr e
+    | gate t =>
+      refine ⟨i1, ?_, i3⟩
+      rcases i2 with e | e
+      · exact Or.inr ⟨t, hw, by rw [e]; rfl⟩
+      · exact Or.inr e
+    | peers t =>
+      refine ⟨i1, i2, ?_⟩
+      rcases i3 with e | e
+      · exact Or.inr ⟨t, hw, by rw [e]; rfl⟩
+      · exact Or.inr e
+
+theorem writesOf_topo (e : Env) (ev : Ev) (w : Write) (h : w ∈ writesOf e ev) : adoptable e ev = some w.topo := by
+  unfold writesOf at h
+  cases ha : adoptable e ev with
+  | none => simp [ha] at h
+  | some t => simp [ha] at h; rcases h with rfl | rfl | rfl <;> rfl
 
 end Helpers
 
@@ -260,6 +318,95 @@ theorem admission_is_gate (e : Env) (st : St) (evs : List Ev) (h : Consistent st
   refine ⟨t, h1, ?_⟩
   have hc := conn_only_members t d p
   cases ha : (run e st evs).admits p <;> cases hb : connAllowed t d p <;> simp_all
+
+/-- the topologies some call of `evs` was entitled to adopt -/
+def Announced (e : Env) (evs : List Ev) (t : Topo) : Prop := ∃ ev ∈ evs, adoptable e ev = some t
+
+/-- **C13-e (several handlers).** One `RefreshEventHandler` exists per EVM chain; they share the file, the gate and the
+    peerstore and run in different goroutines, and the three writes of an accepted refresh are separate steps. For EVERY
+    interleaving of the writes of any number of handler calls (each call's own writes in program order), each of the three
+    components ends up as it was initially or as written by a call that was entitled to adopt (announced hash matched,
+    decrypts, parses, threshold ≥ 1, store worked). What does NOT survive interleaving is their agreement with each other
+    (see the `example` below and op `refresh2`, which replays such a schedule on the real handlers). -/
+theorem interleaved_components_announced (e : Env) (st : St) (evs : List Ev) (ws : List Write)
+    (h : Interleaving (evs.map (writesOf e)) ws) :
+    let st' := applyWrites st ws
+    (st'.stored = st.stored ∨ ∃ t, Announced e evs t ∧ st'.stored = some t) ∧
+    (st'.gate = st.gate ∨ ∃ t, Announced e evs t ∧ st'.gate = canon t.peers) ∧
+    (st'.pstore = st.pstore ∨ ∃ t, Announced e evs t ∧ st'.pstore = canon t.peers) := by
+  apply applyWrites_components (Announced e evs) st ws
+  intro w hw
+  obtain ⟨l, hl, hwl⟩ := interleaving_mem h w hw
+  obtain ⟨ev, hev, rfl⟩ := List.mem_map.1 hl
+  exact ⟨ev, hev, writesOf_topo e ev w hwl⟩
+
+/-- one call is its writes applied in order, and a sequential history is the interleaving that concatenates them -/
+theorem refresh_is_writes (e : Env) (st : St) (ev : Ev) : (refresh e st ev).1 = applyWrites st (writesOf e ev) := by
+  rw [refresh_eq]
+  unfold writesOf
+  cases adoptable e ev with
+  | none => rfl
+  | some t => rfl
+
+theorem run_is_sequential_writes (e : Env) (st : St) (evs : List Ev) :
+    run e st evs = applyWrites st (evs.flatMap (writesOf e)) := by
+  induction evs generalizing st with
+  | nil => rfl
+  | cons ev evs ih =>
+    have : run e st (ev :: evs) = run e (refresh e st ev).1 evs := rfl
+    rw [this, ih, refresh_is_writes]
+    simp [applyWrites, List.foldl_append]
+
+/-- admission under any interleaving: a peer the gate admits is a peer of the initial topology or of an announced one -/
+theorem admission_interleaved (e : Env) (st : St) (evs : List Ev) (ws : List Write)
+    (h : Interleaving (evs.map (writesOf e)) ws) (p : PeerId) (hp : (applyWrites st ws).admits p = true) :
+    st.admits p = true ∨ ∃ t, Announced e evs t ∧ p ∈ t.peers := by
+  obtain ⟨_, hg, _⟩ := interleaved_components_announced e st evs ws h
+  rcases hg with e1 | ⟨t, ht, e1⟩
+  · left; simpa [St.admits, e1] using hp
+  · right; exact ⟨t, ht, by simpa [St.admits, e1, mem_canon] using hp⟩
+
+/-- the interleaving that `refresh2` replays on the real code: handler 1 has stored and gated its topology and is about
+    to load the peerstore when handler 2 runs completely; the file and the gate end at topology 2, the dial targets at
+    topology 1 — `Consistent` is lost (it is a theorem for sequential histories only, `consistent_run`) -/
+example :
+    let t1 : Topo := ⟨[1, 2], 1⟩
+    let t2 : Topo := ⟨[2, 3], 1⟩
+    Interleaving [[.store t1, .gate t1, .peers t1], [.store t2, .gate t2, .peers t2]]
+      [.store t1, .gate t1, .store t2, .gate t2, .peers t2, .peers t1] ∧
+    applyWrites (adopt ⟨[9], 1⟩) [.store t1, .gate t1, .store t2, .gate t2, .peers t2, .peers t1] = ⟨some t2, [2, 3], [1, 2]⟩ ∧
+    ¬ Consistent (applyWrites (adopt ⟨[9], 1⟩) [.store t1, .gate t1, .store t2, .gate t2, .peers t2, .peers t1]) := by
+  intro t1 t2
+  refine ⟨?_, by decide, ?_⟩
+  · exact .step [] _ _ [[.store t2, .gate t2, .peers t2]] _ <|
+      .step [] _ _ [[.store t2, .gate t2, .peers t2]] _ <|
+      .step [[.peers t1]] _ _ [] _ <| .step [[.peers t1]] _ _ [] _ <| .step [[.peers t1]] _ _ [] _ <|
+      .step [] _ _ [[]] _ <| .done _ (by simp)
+  · rintro ⟨t, h1, h2, h3⟩
+    have e1 : t = t2 := by simpa [applyWrites, applyWrite, adopt] using h1.symm
+    subst e1
+    revert h3; decide
+
+/-- start-up establishes `Consistent` (the hypothesis of `consistent_run` / `admission_after_run`): whatever topology
+    `app.Run` ends up with — the stored one or, if there is none, the one fetched without a hash check — gate and peerstore
+    are built from it. (The wiring of `app.Run` itself is read, not executed; the harness ops build their initial state
+    with the same three calls: `StoreTopology`, `NewConnectionGate`, `LoadPeers`.) -/
+theorem bootstrap_consistent (e : Env) (file : Option Topo) (f : Fetched) (ok : Bool) (st : St)
+    (h : bootstrap e file f ok = some st) : Consistent st := by
+  unfold bootstrap at h
+  cases file with
+  | some t => simp at h; subst h; exact ⟨t, rfl, rfl, rfl⟩
+  | none =>
+    simp only [] at h
+    cases hp : provider e "" f with
+    | err => simp [hp] at h
+    | panic => simp [hp] at h
+    | ok t =>
+      simp only [hp] at h
+      cases ok with
+      | false => simp at h
+      | true => simp at h; subst h; exact ⟨t, rfl, rfl, rfl⟩
+
 
 /-! ### non-vacuity -/
 
